@@ -138,7 +138,18 @@ func checkSM[L any, E any](g *grp[L, E]) func(c smCase, r *h.Rec) error {
 				if !g.isNil(got) {
 					return fmt.Errorf("%s.ScalarBaseMult returned both an element and error %v", g.name, err)
 				}
-				return nil
+				// the documented way to feed such a scalar: NormalizeScalar
+				// (left-pads short ones, reduces longer ones mod n)
+				norm := vh.NormalizeScalar(append([]byte{}, c.K...))
+				if len(norm) != 32 {
+					return fmt.Errorf("NormalizeScalar(%x) has %d bytes", []byte(c.K), len(norm))
+				}
+				got, err = g.base(g.newL(), norm)
+				if err != nil {
+					return fmt.Errorf("%s.ScalarBaseMult(NormalizeScalar(%x)) failed: %v", g.name, []byte(c.K), err)
+				}
+				want := g.enc(g.cv.mul(g.generator(), modN(k)))
+				return eqBytes(fmt.Sprintf("%s.ScalarBaseMult(NormalizeScalar(%x)) != [k mod n]Gen", g.name, []byte(c.K)), g.view(got), want)
 			}
 			if err != nil {
 				return fmt.Errorf("%s.ScalarBaseMult(%x) failed: %v", g.name, []byte(c.K), err)
@@ -195,7 +206,7 @@ func TestC09_G2BaseMult(t *testing.T) {
 }
 
 func TestC09_G2ScalarMult(t *testing.T) {
-	h.Prop(t, h.P{Name: "g2-scalarmult", Quick: 200, Thorough: 4000, Journal: true}, genSM(false), checkSM(&grp2))
+	h.Prop(t, h.P{Name: "g2-scalarmult", Quick: 300, Thorough: 4000, Journal: true}, genSM(false), checkSM(&grp2))
 }
 
 // ---------------------------------------------------------------- single-window sweeps
@@ -413,7 +424,7 @@ func TestC09_G1Add(t *testing.T) {
 }
 
 func TestC09_G2Add(t *testing.T) {
-	h.Prop(t, h.P{Name: "g2-add", Quick: 250, Thorough: 5000, Journal: true}, genAdd, checkAdd(&grp2))
+	h.Prop(t, h.P{Name: "g2-add", Quick: 400, Thorough: 5000, Journal: true}, genAdd, checkAdd(&grp2))
 }
 
 // ---------------------------------------------------------------- operation chains
